@@ -153,6 +153,9 @@ func nextFrame(s string) (string, string) {
 		if j := strings.Index(fn, "."); j >= 0 {
 			fn = fn[j+1:]
 		}
+		if !strings.HasSuffix(file, ".go") {
+			continue // a line cut by clipping
+		}
 		return file + "#" + fn, strings.Join(lines[i+2:], "\n")
 	}
 	return "", ""
@@ -224,8 +227,15 @@ func clip(s string, n int) string {
 	if len(s) <= n {
 		return s
 	}
-	// keep head (fatal message) and some tail
-	return s[:n*3/4] + "\n...\n" + s[len(s)-n/4:]
+	// keep head (fatal message) and some tail, cut at line boundaries
+	head, tail := s[:n*3/4], s[len(s)-n/4:]
+	if i := strings.LastIndex(head, "\n"); i > 0 {
+		head = head[:i]
+	}
+	if i := strings.Index(tail, "\n"); i >= 0 {
+		tail = tail[i+1:]
+	}
+	return head + "\n...\n" + tail
 }
 
 // Run executes all specs on up to p.n workers; results are returned in spec order.
